@@ -8,7 +8,7 @@ META = {
     'outside': ['histories longer than the stated number of operations (the one-step obligation starts from an arbitrary table '
                 'content built by real add_object calls, so induction over histories is an argument, not a solver result)',
                 'changing a unique key to a value already in use followed by update_object (precondition of update)',
-                'unhashable keys / keys whose hash changes', 'real container tables (covered via the snapshot oracle of C01/C02/C06)'],
+                'unhashable keys / keys whose hash changes', 'real container tables only for the listed transaction kinds (C11.mdib.*, shared harness with C01)'],
 }
 F = ['sdc11073.multikey.MultiKeyLookup.add_object', 'sdc11073.multikey.MultiKeyLookup.add_objects',
      'sdc11073.multikey.MultiKeyLookup.update_object', 'sdc11073.multikey.MultiKeyLookup.remove_object',
@@ -51,6 +51,24 @@ def obligations(tier):
         obs.append(Ob(f'C11.two.{n1}.{n2}', 'harness.C11', 'table_two_ops', bind=bind, timeout=t if tier == 'quick' else 900,
                       functions=F, twin=(tier == 'quick'), bounds=f'3 objects, operation "{n1}" then "{n2}" with any operands',
                       claim='same over 2-operation sequences (remove then re-add, change then remove, failed add then add ...)'))
+    # the real MDIB tables (DescriptorsLookup / StatesLookup / MultiStatesLookup, provider and consumer side): transactions and
+    # incoming reports that change an indexed attribute (Source, ConditionSignaled, parent via create/delete, handles) - the
+    # harnesses of C01 compare every index of both MDIBs with a scan after the step
+    from harness.mdibkit import STUBS
+    FM = ['sdc11073.mdib.mdibbase.DescriptorsLookup', 'sdc11073.mdib.mdibbase.StatesLookup', 'sdc11073.mdib.mdibbase.MultiStatesLookup',
+          'sdc11073.mdib.transactions.DescriptorTransaction.process_transaction',
+          'sdc11073.mdib.consumermdib.ConsumerMdib._process_incoming_description_modifications',
+          'sdc11073.multikey.MultiKeyLookup.update_object_no_lock']
+    for kind, name in ((0, 'update_alert_condition_source'), (1, 'update_alert_signal_condition_signaled'), (3, 'create_metric'),
+                       (5, 'delete_subtree'), (6, 'update_context_descriptor')):
+        obs.append(Ob(f'C11.mdib.descr.{name}', 'harness.C01', 'mirror_descr_tx', bind={'kind': kind}, timeout=t, functions=FM,
+                      stubs=STUBS, bounds='real provider + consumer MDIB (11 descriptors), 1 descriptor transaction, symbolic version '
+                      'counters and 3-way attribute selector',
+                      claim='after the transaction / the incoming report every index of both MDIBs equals a scan over the stored objects'))
+    for kind, name in ((5, 'context_new'), (7, 'context_update_two_of_one_descriptor')):
+        obs.append(Ob(f'C11.mdib.state.{name}', 'harness.C01', 'mirror_state_tx', bind={'kind': kind}, timeout=t, functions=FM,
+                      stubs=STUBS, bounds='real provider + consumer MDIB, 1 context transaction, symbolic counters',
+                      claim='context state tables (handle, descriptor_handle, type) equal a scan on both sides'))
     return obs
 
 MANIFEST_ENTRY = {
@@ -61,5 +79,5 @@ MANIFEST_ENTRY = {
             'key-equality pattern is explored to exhaustion ("Confirmed over all paths"); after each operation every index is '
             'compared with a linear scan. Bounded: 3 objects, 3 index kinds, <= 2 operations.',
     'note': 'Trusted: CrossHair/z3 path exhaustion; keys are drawn by selector from pools of distinct concrete keys (all equality '
-            'patterns for 3 objects); real MDIB tables are exercised by the snapshot oracle of C01/C02/C06, not here.',
+            'patterns for 3 objects); the real MDIB tables are exercised by the C11.mdib.* obligations (harness shared with C01) for 7 transaction kinds.',
 }
